@@ -347,6 +347,69 @@ theorem sync_insert {d : Data} (h : Sync d) {k : Str} (v : Val) (i : Int)
     · subst e; exact hp
     · exact h.keysPublic j e
 
+/-- one step of `odict.reorder`: the key gets the value and moves to the end of the key list -/
+theorem sync_moveToEnd {d : Data} (h : Sync d) (k : Str) (v : Val)
+    (hk : (lookup d.raw k).isSome = true ∨ identPub k = true) :
+    Sync ⟨rawSet d.raw k v, d.keys.erase k ++ [k]⟩ := by
+  have hmem : ∀ j, j ∈ d.keys.erase k ++ [k] ↔ j = k ∨ j ∈ d.keys := by
+    intro j
+    simp only [List.mem_append, List.mem_singleton]
+    constructor
+    · rintro (h1 | h1)
+      · exact Or.inr (List.mem_of_mem_erase h1)
+      · exact Or.inl h1
+    · rintro (h1 | h1)
+      · exact Or.inr h1
+      · by_cases e : j = k
+        · exact Or.inr e
+        · exact Or.inl ((List.Nodup.mem_erase_iff h.keysNodup).mpr ⟨e, h1⟩)
+  refine ⟨rawNodup_rawSet h.rawNodup k v, ?_, ?_, ?_, ?_⟩
+  · rw [List.nodup_append]
+    refine ⟨h.keysNodup.erase k, by simp, ?_⟩
+    intro a ha b hb
+    simp only [List.mem_singleton] at hb
+    subst hb
+    intro e; subst e
+    exact ((List.Nodup.mem_erase_iff h.keysNodup).mp ha).1 rfl
+  · intro j hj
+    simp only [lookup_rawSet]
+    split
+    · rfl
+    · next hne =>
+      rcases (hmem j).mp hj with e | e
+      · exact absurd e.symm hne
+      · exact h.keysInRaw j e
+  · intro j hj
+    simp only [lookup_rawSet] at hj
+    split at hj
+    · next e => exact (hmem j).mpr (Or.inl e.symm)
+    · exact (hmem j).mpr (Or.inr (h.rawInKeys j hj))
+  · intro j hj
+    rcases (hmem j).mp hj with e | e
+    · subst e
+      rcases hk with h1 | h1
+      · exact h.keysPublic _ (h.rawInKeys _ h1)
+      · exact h1
+    · exact h.keysPublic j e
+
+theorem sync_reorderFold (ps : List (Str × Val)) : ∀ {d : Data}, Sync d →
+    (∀ p ∈ ps, (lookup d.raw p.1).isSome = true ∨ identPub p.1 = true) →
+    Sync (ps.foldl (fun d p => ⟨rawSet d.raw p.1 p.2, d.keys.erase p.1 ++ [p.1]⟩) d) := by
+  induction ps with
+  | nil => intro d h _; exact h
+  | cons p ps ih =>
+    intro d h hp
+    simp only [List.foldl_cons]
+    apply ih (sync_moveToEnd h p.1 p.2 (hp p (List.mem_cons_self ..)))
+    intro q hq
+    rcases hp q (List.mem_cons_of_mem _ hq) with h1 | h1
+    · left
+      simp only [lookup_rawSet]
+      split
+      · rfl
+      · exact h1
+    · exact Or.inr h1
+
 /-- every operation preserves the invariant -/
 theorem sync_step {w : World} (h : Sync w.data) (op : Op) : Sync (step w op).1.data := by
   cases op with
@@ -406,6 +469,46 @@ theorem sync_step {w : World} (h : Sync w.data) (op : Op) : Sync (step w op).1.d
         | none => simp only; split <;> exact hs
         | some e => exact hs
   | clear => exact sync_empty
+  | sift fs => cases fs <;> (simp only [step]; split <;> exact h)
+  | copy => simp only [step]; split <;> exact h
+  | reorder ps =>
+    simp only [step]
+    split
+    · exact h
+    · next hc =>
+      apply sync_reorderFold ps h
+      intro p hp
+      have := hc
+      simp only [List.any_eq_true, not_exists, not_and, Bool.and_eq_true, Bool.not_eq_true'] at this
+      have h1 := this p hp
+      by_cases e : (lookup w.data.raw p.1).isSome = true
+      · exact Or.inl e
+      · right
+        have hn : (lookup w.data.raw p.1).isNone = true := by
+          cases hl : lookup w.data.raw p.1 <;> simp_all
+        cases hi : identPub p.1
+        · exact absurd hi (by simpa using h1 hn)
+        · rfl
+  | setData ps =>
+    simp only [step]
+    have hs := sync_changeLoop sync_empty ps
+    cases hr : changeLoop ⟨[], []⟩ ps with
+    | mk d e => rw [hr] at hs; cases e <;> first | exact hs | exact h
+  | setTruth v => exact h
+  | getTruth => exact h
+  | changeUnit ps => exact h
+  | createUnit ps => exact h
+  | fetchUnit k =>
+    simp only [step]
+    split
+    · exact h
+    · split <;> exact h
+  | ctorUnit ps =>
+    simp only [step]
+    split
+    · split <;> exact h
+    · exact h
+  | mutate id n => exact h
   | insert idx k v =>
     simp only [step]
     split
@@ -772,6 +875,25 @@ theorem step_deck (w : World) (op : Op) :
       · split <;> rfl
       · rfl
   | clear => rfl
+  | sift fs => cases fs <;> (simp only [step]; split <;> rfl)
+  | copy => simp only [step]; split <;> rfl
+  | reorder ps => simp only [step]; split <;> rfl
+  | setData ps => simp only [step]; split <;> rfl
+  | setTruth v => rfl
+  | getTruth => rfl
+  | changeUnit ps => rfl
+  | createUnit ps => rfl
+  | fetchUnit k =>
+    simp only [step]
+    split
+    · rfl
+    · split <;> rfl
+  | ctorUnit ps =>
+    simp only [step]
+    split
+    · split <;> rfl
+    · rfl
+  | mutate id n => rfl
   | insert idx k v =>
     simp only [step]
     split
